@@ -35,11 +35,24 @@ impl FirstSetMapBuilder<'_> {
         out
     }
 
+    /// Returns every nonterminal that has a rule or
+    /// appears in the right-hand side of a rule.
+    /// The latter matters for nonterminals that have no rules
+    /// (i.e., enums with zero variants).
     fn get_nonterminal_names(&self) -> Oset<&str> {
-        self.rules
+        let mut names: Oset<&str> = self
+            .rules
             .iter()
             .map(|rule| rule.constructor_name.type_name())
-            .collect()
+            .collect();
+        for rule in self.rules {
+            for i in 0..rule.fieldset.len() {
+                if let IdentOrTerminalIdent::Ident(ident) = rule.fieldset.get_symbol_ident(i) {
+                    names.insert(&ident.name);
+                }
+            }
+        }
+        names
     }
 
     fn expand(&self, out: &mut HashMap<String, FirstSet>) -> DidChange {
